@@ -946,20 +946,29 @@ Qed.
 
 (* ---------------------------------------------------------------------- *)
 (* the timeout loop of uv__io_poll                                          *)
-(* invariant: outside the metrics probe the timeout about to be passed is exactly what is left *)
+(* invariant: outside the metrics probe and before any full batch the timeout about to be
+   passed is exactly what is left; after a full batch it is 0 *)
 Definition pinv (m : bool) (T : Z) (s : pst) : Prop :=
   0 <= p_now s /\
-  (if p_reset s then m = true /\ p_timeout s = 0 /\ p_user s = T /\ p_real s = T /\ p_now s = 0 /\ p_base s = 0
+  (if p_full s then p_reset s = false /\ p_timeout s = 0 /\ p_now s <= T
+   else if p_reset s then m = true /\ p_timeout s = 0 /\ p_user s = T /\ p_real s = T /\ p_now s = 0 /\ p_base s = 0
    else 0 <= p_timeout s /\ p_real s = p_timeout s /\ p_timeout s + p_now s = T /\ p_base s = p_now s).
-Definition call_good (m : bool) (T : Z) (c : Z * Z) : Prop :=
-  (fst c + snd c <= T /\ 0 <= fst c) /\ (fst c = T - snd c \/ (m = true /\ c = (0, 0))).
+Definition call_good (m : bool) (T : Z) (FL : list (Z * Z)) (c : Z * Z) : Prop :=
+  (fst c + snd c <= T /\ 0 <= fst c) /\ (fst c = T - snd c \/ (m = true /\ c = (0, 0)) \/ In c FL).
+
+Lemma call_good_mono m T FL x c : call_good m T FL c -> call_good m T (x :: FL) c.
+Proof. intros [A [B|[B|B]]]; split; auto. right; right; right; exact B. Qed.
+Lemma calls_good_mono m T FL x l : Forall (call_good m T FL) l -> Forall (call_good m T (x :: FL)) l.
+Proof. intros H. eapply Forall_impl; [|exact H]. intros c. apply call_good_mono. Qed.
+Lemma calls_good_logfull m T s FL l : Forall (call_good m T FL) l -> Forall (call_good m T (log_full s FL)) l.
+Proof. unfold log_full. destruct (p_full s); [apply calls_good_mono|auto]. Qed.
 
 Lemma elapsed_ok_spec t e : elapsed_ok t e = true -> 0 <= t -> 0 <= e <= t.
 Proof. unfold elapsed_ok. intros H Ht. lia. Qed.
 
-Lemma io_poll_loop_ok_mono o : forall s log, r_ok (io_poll_loop o s log) = true -> p_ok s = true.
+Lemma io_poll_loop_ok_mono o : forall s log flog, r_ok (io_poll_loop o s log flog) = true -> p_ok s = true.
 Proof.
-  induction o as [|a r IH]; intros s log.
+  induction o as [|a r IH]; intros s log flog.
   - unfold io_poll_loop, io_poll_tail.
     destruct (p_timeout s <? 0); cbn; auto. destruct (p_reset s); cbn; auto.
     destruct (update_timeout _) as [s'|]; cbn; auto. destruct (p_timeout s' <? 0); cbn; auto.
@@ -976,68 +985,83 @@ Proof.
       repeat match goal with |- context [if ?c then _ else _] => destruct c end;
         intros U; inversion U; subst; cbn in H; auto.
     + cbn. intros H. apply andb_prop in H; tauto.
+    + destruct (p_count s - 1 =? 0); cbn.
+      * intros H. apply andb_prop in H; tauto.
+      * intros H. apply IH in H. cbn in H. apply andb_prop in H; tauto.
 Qed.
 
 (* one trip through "reset / update_timeout" keeps the invariant *)
 Lemma update_inv m T s now ok s' :
   0 <= T -> pinv m T s -> p_now s <= now -> now <= p_now s + p_timeout s ->
   update_timeout (after_reset s now ok) = Some s' ->
-  pinv m T s' /\ p_ok s' = ok /\ p_reset s' = false /\ p_now s' = now.
+  pinv m T s' /\ p_ok s' = ok /\ p_reset s' = false /\ p_now s' = now /\ p_full s' = false /\ p_full s = false.
 Proof.
   intros HT (N & I) L1 L2. unfold update_timeout, after_reset.
-  destruct (p_reset s) eqn:R; cbn.
-  - destruct I as (M & A & B & C & D & E).
-    destruct (Z.eqb_spec (p_user s) 0); [discriminate|].
-    destruct (Z.eqb_spec (p_user s) (-1)); [lia|].
-    destruct (Z.leb_spec (p_real s - (now - p_base s)) 0); [discriminate|].
-    intros X; inversion X; subst; clear X. unfold pinv; cbn. repeat split; lia.
-  - destruct I as (A & B & C & D).
-    destruct (Z.eqb_spec (p_timeout s) 0); [discriminate|].
-    destruct (Z.eqb_spec (p_timeout s) (-1)); [lia|].
-    destruct (Z.leb_spec (p_real s - (now - p_base s)) 0); [discriminate|].
-    intros X; inversion X; subst; clear X. unfold pinv; cbn. repeat split; lia.
+  destruct (p_full s) eqn:F.
+  - destruct I as (A & B & C). rewrite A. cbn. rewrite B. cbn. discriminate.
+  - destruct (p_reset s) eqn:R; cbn.
+    + destruct I as (M & A & B & C & D & E).
+      destruct (Z.eqb_spec (p_user s) 0); [discriminate|].
+      destruct (Z.eqb_spec (p_user s) (-1)); [lia|].
+      destruct (Z.leb_spec (p_real s - (now - p_base s)) 0); [discriminate|].
+      intros X; inversion X; subst; clear X. unfold pinv; cbn. repeat split; lia.
+    + destruct I as (A & B & C & D).
+      destruct (Z.eqb_spec (p_timeout s) 0); [discriminate|].
+      destruct (Z.eqb_spec (p_timeout s) (-1)); [lia|].
+      destruct (Z.leb_spec (p_real s - (now - p_base s)) 0); [discriminate|].
+      intros X; inversion X; subst; clear X. unfold pinv; cbn. repeat split; lia.
 Qed.
 
 Ltac fl := repeat (apply Forall_cons; [assumption|]); assumption.
 
-Lemma pinv_call m T s : 0 <= T -> pinv m T s -> call_good m T (p_timeout s, p_now s).
+Lemma pinv_bounds m T s : 0 <= T -> pinv m T s -> 0 <= p_timeout s /\ p_timeout s + p_now s <= T.
+Proof. intros HT (N & I). destruct (p_full s); [lia|]. destruct (p_reset s); lia. Qed.
+
+Lemma pinv_call m T s FL : 0 <= T -> pinv m T s -> call_good m T (log_full s FL) (p_timeout s, p_now s).
 Proof.
-  intros HT (N & I). unfold call_good. cbn.
-  destruct (p_reset s).
-  - destruct I as (M & A & B & C & D & E). rewrite A, D. split; [lia|]. right; auto.
-  - split; [lia|]. left; lia.
+  intros HT Inv. pose proof (pinv_bounds m T s HT Inv) as [B1 B2]. destruct Inv as (N & I).
+  unfold call_good, log_full. cbn. split; [lia|].
+  destruct (p_full s).
+  - right; right. left; reflexivity.
+  - destruct (p_reset s).
+    + destruct I as (M & A & B & C & D & E). rewrite A, D. right; left; auto.
+    + left; lia.
 Qed.
 
-Lemma io_poll_tail_bound m T s log :
-  0 <= T -> pinv m T s -> Forall (call_good m T) log ->
-  r_blocked (io_poll_tail s log) <= T /\ Forall (call_good m T) (r_calls (io_poll_tail s log)).
+Definition res_good (m : bool) (T : Z) (r : pres) : Prop :=
+  r_blocked r <= T /\ Forall (call_good m T (r_full_calls r)) (r_calls r).
+
+Lemma io_poll_tail_bound m T s log flog :
+  0 <= T -> pinv m T s -> Forall (call_good m T flog) log -> res_good m T (io_poll_tail s log flog).
 Proof.
-  intros HT Inv FL. pose proof (pinv_call m T s HT Inv) as C0. pose proof Inv as (N & I). unfold io_poll_tail.
-  destruct (Z.ltb_spec (p_timeout s) 0); cbn.
-  - split; [destruct (p_reset s); lia | fl].
-  - destruct (p_reset s) eqn:R; cbn.
-    + destruct (update_timeout _) as [s'|] eqn:U; cbn.
-      * destruct (update_inv m T s (p_now s + p_timeout s) (p_ok s) s' HT Inv ltac:(lia) ltac:(lia) U)
-          as (Inv' & _ & R' & X).
-        pose proof (pinv_call m T s' HT Inv') as C'. destruct Inv' as (N' & I'). rewrite R' in I'.
-        destruct (Z.ltb_spec (p_timeout s') 0); cbn; (split; [lia | fl]).
-      * split; [lia | fl].
+  intros HT Inv FL. pose proof (pinv_call m T s flog HT Inv) as C0.
+  pose proof (calls_good_logfull m T s flog log FL) as FL'.
+  pose proof (pinv_bounds m T s HT Inv) as [B1 B2]. unfold res_good, io_poll_tail.
+  destruct (Z.ltb_spec (p_timeout s) 0); cbn; [lia|].
+  destruct (p_reset s) eqn:R; cbn.
+  - destruct (update_timeout _) as [s'|] eqn:U; cbn.
+    + destruct (update_inv m T s (p_now s + p_timeout s) (p_ok s) s' HT Inv ltac:(lia) ltac:(lia) U)
+        as (Inv' & _ & R' & X & F' & F).
+      pose proof (pinv_bounds m T s' HT Inv') as [B1' B2'].
+      assert (C' : call_good m T (log_full s flog) (p_timeout s', p_now s')).
+      { pose proof (pinv_call m T s' (log_full s flog) HT Inv') as K. unfold log_full in K at 1. rewrite F' in K. exact K. }
+      destruct (Z.ltb_spec (p_timeout s') 0); cbn; (split; [lia | fl]).
     + split; [lia | fl].
+  - split; [lia | fl].
 Qed.
 
-Lemma io_poll_loop_bound m T o : forall s log,
-  0 <= T -> pinv m T s -> Forall (call_good m T) log ->
-  r_ok (io_poll_loop o s log) = true ->
-  r_blocked (io_poll_loop o s log) <= T /\ Forall (call_good m T) (r_calls (io_poll_loop o s log)).
+Lemma io_poll_loop_bound m T o : forall s log flog,
+  0 <= T -> pinv m T s -> Forall (call_good m T flog) log ->
+  r_ok (io_poll_loop o s log flog) = true -> res_good m T (io_poll_loop o s log flog).
 Proof.
-  induction o as [|a r IH]; intros s log HT Inv FL OK.
+  induction o as [|a r IH]; intros s log flog HT Inv FL OK.
   - apply io_poll_tail_bound; auto.
-  - pose proof (pinv_call m T s HT Inv) as C0. pose proof Inv as (N & I).
-    assert (T0 : 0 <= p_timeout s) by (destruct (p_reset s); lia).
-    assert (B0 : p_timeout s + p_now s <= T) by (destruct (p_reset s); lia).
+  - pose proof (pinv_call m T s flog HT Inv) as C0.
+    pose proof (calls_good_logfull m T s flog log FL) as FL'.
+    pose proof (pinv_bounds m T s HT Inv) as [T0 B0]. pose proof Inv as (N & I).
     cbn [io_poll_loop] in *. destruct a.
     + destruct (update_timeout _) as [s'|] eqn:U.
-      * pose proof (io_poll_loop_ok_mono _ _ _ OK) as OK'.
+      * pose proof (io_poll_loop_ok_mono _ _ _ _ OK) as OK'.
         assert (EO : elapsed_ok (p_timeout s) e = true).
         { revert U OK'. unfold update_timeout, after_reset.
           destruct (p_reset s); cbn;
@@ -1046,22 +1070,28 @@ Proof.
         destruct (elapsed_ok_spec _ _ EO T0) as [E1 E2].
         destruct (update_inv m T s (p_now s + e) _ s' HT Inv ltac:(lia) ltac:(lia) U) as (Inv' & _).
         apply IH; auto; try fl.
-      * cbn in *. apply andb_prop in OK. destruct OK as [_ EO].
+      * unfold res_good. cbn in *. apply andb_prop in OK. destruct OK as [_ EO].
         destruct (elapsed_ok_spec _ _ EO T0). split; [lia | fl].
     + destruct (Z.ltb_spec (p_timeout s) 0); cbn in *; [lia|].
       destruct (p_reset s) eqn:R; cbn in *.
       * destruct (update_timeout _) as [s'|] eqn:U; cbn in *.
         -- destruct (update_inv m T s (p_now s + p_timeout s) _ s' HT Inv ltac:(lia) ltac:(lia) U) as (Inv' & _).
            apply IH; auto; try fl.
-        -- split; [lia | fl].
-      * split; [lia | fl].
-    + cbn in *. apply andb_prop in OK. destruct OK as [_ EO].
+        -- unfold res_good; cbn. split; [lia | fl].
+      * unfold res_good; cbn. split; [lia | fl].
+    + unfold res_good. cbn in *. apply andb_prop in OK. destruct OK as [_ EO].
       destruct (elapsed_ok_spec _ _ EO T0). split; [lia | fl].
+    + destruct (p_count s - 1 =? 0) eqn:CNT.
+      * unfold res_good. cbn in *. apply andb_prop in OK. destruct OK as [_ EO].
+        destruct (elapsed_ok_spec _ _ EO T0). split; [lia | fl].
+      * pose proof (io_poll_loop_ok_mono _ _ _ _ OK) as OK'. cbn in OK'.
+        apply andb_prop in OK'. destruct OK' as [_ EO]. destruct (elapsed_ok_spec _ _ EO T0).
+        apply IH; auto; try fl.
+        unfold pinv; cbn. repeat split; lia.
 Qed.
 
 Lemma io_poll_good metrics T o :
-  0 <= T -> r_ok (io_poll metrics T o) = true ->
-  r_blocked (io_poll metrics T o) <= T /\ Forall (call_good metrics T) (r_calls (io_poll metrics T o)).
+  0 <= T -> r_ok (io_poll metrics T o) = true -> res_good metrics T (io_poll metrics T o).
 Proof.
   intros HT OK. unfold io_poll in *.
   apply (io_poll_loop_bound metrics T); auto.
@@ -1078,45 +1108,80 @@ Proof.
   eapply Forall_impl; [|exact B]. intros c [H _]. exact H.
 Qed.
 
-(* C16_io_poll_retry_exact: every call passes exactly given - elapsed-so-far; the only other
-   call is the non-blocking probe of the metrics variant at time 0 *)
+(* C16_io_poll_retry_exact: every call passes exactly given - elapsed-so-far; the only other calls
+   are the non-blocking probe of the metrics variant at time 0 and the re-polls after a full batch *)
 Lemma io_poll_retry_exact metrics T o :
   0 <= T -> r_ok (io_poll metrics T o) = true ->
-  Forall (fun c => fst c = T - snd c \/ (metrics = true /\ c = (0, 0))) (r_calls (io_poll metrics T o)).
+  Forall (fun c => fst c = T - snd c \/ (metrics = true /\ c = (0, 0)) \/ In c (r_full_calls (io_poll metrics T o)))
+         (r_calls (io_poll metrics T o)).
 Proof.
   intros HT OK. destruct (io_poll_good metrics T o HT OK) as [_ B].
   eapply Forall_impl; [|exact B]. intros c [_ H]. exact H.
 Qed.
 
-(* the calls are logged in order, first the one with the state's own timeout *)
-Lemma io_poll_loop_calls o : forall s log,
-  exists l, r_calls (io_poll_loop o s log) = l ++ (p_timeout s, p_now s) :: log.
+(* C16_io_poll_full_batch_repoll_nonblocking: whatever the script and the entry timeout, every
+   call made after a full batch is non-blocking *)
+Definition full_inv (s : pst) : Prop := p_full s = true -> p_timeout s = 0 /\ p_reset s = false.
+
+Lemma update_full_inv s now ok s' :
+  full_inv s -> update_timeout (after_reset s now ok) = Some s' -> full_inv s'.
 Proof.
-  induction o as [|a r IH]; intros s log.
-  - unfold io_poll_loop, io_poll_tail.
-    destruct (p_timeout s <? 0); [exists []; reflexivity|].
-    destruct (p_reset s); [|exists []; reflexivity].
-    destruct (update_timeout _) as [s'|]; [|exists []; reflexivity].
-    destruct (p_timeout s' <? 0); exists [(p_timeout s', p_now s')]; reflexivity.
-  - cbn [io_poll_loop]. destruct a.
-    + destruct (update_timeout _) as [s'|]; [|exists []; reflexivity].
-      destruct (IH s' ((p_timeout s, p_now s) :: log)) as (l & E). rewrite E.
-      exists (l ++ [(p_timeout s', p_now s')]). rewrite <- app_assoc. reflexivity.
-    + destruct (p_timeout s <? 0); [exists []; reflexivity|].
-      destruct (p_reset s); [|exists []; reflexivity].
-      destruct (update_timeout _) as [s'|]; [|exists []; reflexivity].
-      destruct (IH s' ((p_timeout s, p_now s) :: log)) as (l & E). rewrite E.
-      exists (l ++ [(p_timeout s', p_now s')]). rewrite <- app_assoc. reflexivity.
-    + exists []; reflexivity.
+  unfold full_inv, update_timeout, after_reset. intros I.
+  destruct (p_full s) eqn:F.
+  - destruct (I eq_refl) as [A B]. rewrite B. cbn. rewrite A. cbn. discriminate.
+  - destruct (p_reset s); cbn;
+      repeat match goal with |- context [if ?c then _ else _] => destruct c end;
+      intros U; inversion U; subst; cbn; rewrite F; discriminate.
 Qed.
+
+Lemma log_full_zero s flog :
+  full_inv s -> Forall (fun c => fst c = 0) flog -> Forall (fun c => fst c = 0) (log_full s flog).
+Proof.
+  unfold log_full, full_inv. intros I H. destruct (p_full s); [|exact H].
+  constructor; [cbn; apply I; reflexivity | exact H].
+Qed.
+
+Lemma io_poll_loop_full_zero o : forall s log flog,
+  full_inv s -> Forall (fun c => fst c = 0) flog ->
+  Forall (fun c => fst c = 0) (r_full_calls (io_poll_loop o s log flog)).
+Proof.
+  induction o as [|a r IH]; intros s log flog I H; pose proof (log_full_zero s flog I H) as H'.
+  - unfold io_poll_loop, io_poll_tail.
+    destruct (p_timeout s <? 0); cbn; auto. destruct (p_reset s); cbn; auto.
+    destruct (update_timeout _) as [s'|]; cbn; auto. destruct (p_timeout s' <? 0); cbn; auto.
+  - cbn [io_poll_loop]. destruct a.
+    + destruct (update_timeout _) as [s'|] eqn:U; cbn; auto.
+      apply IH; auto. eapply update_full_inv; eauto.
+    + destruct (p_timeout s <? 0); cbn; auto. destruct (p_reset s); cbn; auto.
+      destruct (update_timeout _) as [s'|] eqn:U; cbn; auto.
+      apply IH; auto. eapply update_full_inv; eauto.
+    + cbn; auto.
+    + destruct (p_count s - 1 =? 0); cbn; auto.
+      apply IH; auto. unfold full_inv; cbn; auto.
+Qed.
+
+Lemma io_poll_full_batch_nonblocking metrics T o :
+  Forall (fun c => fst c = 0) (r_full_calls (io_poll metrics T o)).
+Proof.
+  unfold io_poll. apply io_poll_loop_full_zero; [|constructor].
+  destruct metrics; unfold full_inv; cbn; discriminate.
+Qed.
+
+(* the calls after a full batch really are recorded: a full batch after 10 of 200 ms, then nothing *)
+Lemma io_poll_full_batch_example :
+  r_calls (io_poll false 200 [PFull 10]) = [(0, 10); (200, 0)] /\
+  r_full_calls (io_poll false 200 [PFull 10]) = [(0, 10)] /\
+  r_blocked (io_poll false 200 [PFull 10]) = 10 /\
+  r_full_calls (io_poll true (-1) [PTimeout; PFull 5; PFull 0; PIntr 0]) = [(0, 5); (0, 5)].
+Proof. vm_compute. repeat split. Qed.
 
 Definition nth_call (k : nat) (r : pres) : option (Z * Z) := nth_error (rev (r_calls r)) k.
 Definition pobs (r : pres) := (r_blocked r, r_end r, r_ok r).
 
-Lemma io_poll_log_irrelevant o : forall s log1 log2,
-  pobs (io_poll_loop o s log1) = pobs (io_poll_loop o s log2).
+Lemma io_poll_log_irrelevant o : forall s log1 flog1 log2 flog2,
+  pobs (io_poll_loop o s log1 flog1) = pobs (io_poll_loop o s log2 flog2).
 Proof.
-  induction o as [|a r IH]; intros s log1 log2.
+  induction o as [|a r IH]; intros s log1 flog1 log2 flog2.
   - unfold io_poll_loop, io_poll_tail, pobs.
     destruct (p_timeout s <? 0); [reflexivity|]. destruct (p_reset s); [|reflexivity].
     destruct (update_timeout _) as [s'|]; [|reflexivity]. destruct (p_timeout s' <? 0); reflexivity.
@@ -1125,30 +1190,31 @@ Proof.
     + destruct (p_timeout s <? 0); [reflexivity|]. destruct (p_reset s); [|reflexivity].
       destruct (update_timeout _) as [s'|]; [apply IH|reflexivity].
     + reflexivity.
+    + destruct (p_count s - 1 =? 0); [reflexivity|apply IH].
 Qed.
 
 (* the state of the plain variant [n] ms after entry, nothing but interruptions so far *)
-Definition pstate (T n : Z) : pst := mkP n (T - n) (T - n) false 0 true n.
+Definition pstate (T n : Z) : pst := mkP n (T - n) (T - n) false 0 true n 48 false.
 
 (* any interruptions, of any reported length, lead to the state that depends on the total
    elapsed time only *)
-Lemma io_poll_intr_prefix T o : forall es n log,
+Lemma io_poll_intr_prefix T o : forall es n log flog,
   0 <= n -> Forall (fun e => 0 <= e) es -> n + fold_right Z.add 0 es < T ->
-  exists log', io_poll_loop (map PIntr es ++ o) (pstate T n) log =
-               io_poll_loop o (pstate T (n + fold_right Z.add 0 es)) log'.
+  exists log', io_poll_loop (map PIntr es ++ o) (pstate T n) log flog =
+               io_poll_loop o (pstate T (n + fold_right Z.add 0 es)) log' flog.
 Proof.
-  induction es as [|e es IH]; intros n log Hn F S.
+  induction es as [|e es IH]; intros n log flog Hn F S.
   - cbn. exists log. replace (n + 0) with n by lia. reflexivity.
   - inversion F as [|x y F1 F2]; subst. cbn [fold_right] in S.
     assert (0 <= fold_right Z.add 0 es).
     { clear - F2. induction es; cbn; [lia|]. inversion F2; subst. specialize (IHes H2). lia. }
-    cbn [map app io_poll_loop]. unfold after_reset. cbn.
+    cbn [map app io_poll_loop]. unfold after_reset, log_full. cbn.
     assert (EO : elapsed_ok (T - n) e = true) by (unfold elapsed_ok; lia).
     rewrite EO. unfold update_timeout. cbn.
     destruct (Z.eqb_spec (T - n) 0); [lia|]. destruct (Z.eqb_spec (T - n) (-1)); [lia|].
     destruct (Z.leb_spec (T - n - (n + e - n)) 0); [lia|].
     replace (T - n - (n + e - n)) with (T - (n + e)) by lia.
-    destruct (IH (n + e) ((T - n, n) :: log) ltac:(lia) F2 ltac:(lia)) as (log' & E).
+    destruct (IH (n + e) ((T - n, n) :: log) flog ltac:(lia) F2 ltac:(lia)) as (log' & E).
     unfold pstate in E. rewrite E. exists log'. cbn [fold_right].
     replace (n + e + fold_right Z.add 0 es) with (n + (e + fold_right Z.add 0 es)) by lia. reflexivity.
 Qed.
@@ -1160,10 +1226,9 @@ Lemma io_poll_eintr_transparent T es1 es2 o :
   pobs (io_poll false T (map PIntr es1 ++ o)) = pobs (io_poll false T (map PIntr es2 ++ o)).
 Proof.
   intros F1 F2 E L. unfold io_poll.
-  change (mkP 0 T T false 0 true 0) with (mkP 0 T T false 0 true 0).
-  replace (mkP 0 T T false 0 true 0) with (pstate T 0) by (unfold pstate; f_equal; lia).
-  destruct (io_poll_intr_prefix T o es1 0 [] ltac:(lia) F1 ltac:(lia)) as (l1 & E1).
-  destruct (io_poll_intr_prefix T o es2 0 [] ltac:(lia) F2 ltac:(lia)) as (l2 & E2).
+  replace (mkP 0 T T false 0 true 0 48 false) with (pstate T 0) by (unfold pstate; f_equal; lia).
+  destruct (io_poll_intr_prefix T o es1 0 [] [] ltac:(lia) F1 ltac:(lia)) as (l1 & E1).
+  destruct (io_poll_intr_prefix T o es2 0 [] [] ltac:(lia) F2 ltac:(lia)) as (l2 & E2).
   rewrite E1, E2, E. apply io_poll_log_irrelevant.
 Qed.
 
@@ -1174,40 +1239,43 @@ Lemma io_poll_wakeup_exact T es :
   r_ok (io_poll false T (map PIntr es)) = true.
 Proof.
   intros F L. unfold io_poll.
-  replace (mkP 0 T T false 0 true 0) with (pstate T 0) by (unfold pstate; f_equal; lia).
+  replace (mkP 0 T T false 0 true 0 48 false) with (pstate T 0) by (unfold pstate; f_equal; lia).
   assert (0 <= fold_right Z.add 0 es).
   { clear - F. induction es; cbn; [lia|]. inversion F; subst. specialize (IHes H2). lia. }
-  destruct (io_poll_intr_prefix T [] es 0 [] ltac:(lia) F ltac:(lia)) as (l1 & E1).
-  rewrite app_nil_r in E1. rewrite E1. cbn [io_poll_loop]. unfold io_poll_tail, pstate. cbn.
+  destruct (io_poll_intr_prefix T [] es 0 [] [] ltac:(lia) F ltac:(lia)) as (l1 & E1).
+  rewrite app_nil_r in E1. rewrite E1. cbn [io_poll_loop]. unfold io_poll_tail, pstate, log_full. cbn.
   destruct (Z.ltb_spec (T - fold_right Z.add 0 es) 0); [lia|]. cbn. repeat split; lia.
 Qed.
 
 (* the metrics variant: once the non-blocking first call has found nothing (timed out or was
    interrupted) it continues exactly like the plain variant *)
-Lemma io_poll_user_irrelevant o : forall s u log,
+Lemma io_poll_user_irrelevant o : forall s u log flog,
   p_reset s = false ->
-  io_poll_loop o (mkP (p_now s) (p_real s) (p_timeout s) false u (p_ok s) (p_base s)) log = io_poll_loop o s log.
+  io_poll_loop o (mkP (p_now s) (p_real s) (p_timeout s) false u (p_ok s) (p_base s) (p_count s) (p_full s)) log flog =
+  io_poll_loop o s log flog.
 Proof.
-  induction o as [|a r IH]; intros s u log R.
-  - unfold io_poll_loop, io_poll_tail. cbn. rewrite R. reflexivity.
-  - cbn [io_poll_loop]. cbn. rewrite R. unfold after_reset, update_timeout. cbn. rewrite R. cbn.
+  induction o as [|a r IH]; intros s u log flog R.
+  - unfold io_poll_loop, io_poll_tail, log_full. cbn. rewrite R. reflexivity.
+  - cbn [io_poll_loop]. unfold log_full. cbn. rewrite R. unfold after_reset, update_timeout. cbn. rewrite R. cbn.
     destruct a.
     + destruct (p_timeout s =? 0); [reflexivity|]. destruct (p_timeout s =? -1).
-      * apply (IH (mkP (p_now s + e) (p_real s) (p_timeout s) false (p_user s) (p_ok s && elapsed_ok (p_timeout s) e) (p_base s)) u); reflexivity.
+      * apply (IH (mkP (p_now s + e) (p_real s) (p_timeout s) false (p_user s) (p_ok s && elapsed_ok (p_timeout s) e) (p_base s) (p_count s) (p_full s)) u); reflexivity.
       * destruct (p_real s - (p_now s + e - p_base s) <=? 0); [reflexivity|].
-        apply (IH (mkP (p_now s + e) (p_real s - (p_now s + e - p_base s)) (p_real s - (p_now s + e - p_base s)) false (p_user s) (p_ok s && elapsed_ok (p_timeout s) e) (p_now s + e)) u); reflexivity.
+        apply (IH (mkP (p_now s + e) (p_real s - (p_now s + e - p_base s)) (p_real s - (p_now s + e - p_base s)) false (p_user s) (p_ok s && elapsed_ok (p_timeout s) e) (p_now s + e) (p_count s) (p_full s)) u); reflexivity.
     + reflexivity.
     + reflexivity.
+    + destruct (p_count s - 1 =? 0); [reflexivity|].
+      apply (IH (mkP (p_now s + e) (p_real s) 0 false (p_user s) (p_ok s && elapsed_ok (p_timeout s) e) (p_base s) (p_count s - 1) true) u); reflexivity.
 Qed.
 
 Lemma io_poll_metrics_reduces T o probe :
   (0 < T \/ T = -1) -> probe = PTimeout \/ probe = PIntr 0 ->
   pobs (io_poll true T (probe :: o)) = pobs (io_poll false T o).
 Proof.
-  intros HT HP. unfold io_poll. cbn [io_poll_loop]. cbn.
-  assert (K : pobs (io_poll_loop o (mkP 0 T T false T true 0) [(0, 0)]) =
-              pobs (io_poll_loop o (mkP 0 T T false 0 true 0) [])).
-  { pose proof (io_poll_user_irrelevant o (mkP 0 T T false 0 true 0) T [(0, 0)] eq_refl) as U.
+  intros HT HP. unfold io_poll. cbn [io_poll_loop]. unfold log_full. cbn.
+  assert (K : pobs (io_poll_loop o (mkP 0 T T false T true 0 48 false) [(0, 0)] []) =
+              pobs (io_poll_loop o (mkP 0 T T false 0 true 0 48 false) [] [])).
+  { pose proof (io_poll_user_irrelevant o (mkP 0 T T false 0 true 0 48 false) T [(0, 0)] [] eq_refl) as U.
     cbn in U. rewrite U. apply io_poll_log_irrelevant. }
   destruct HP as [-> | ->]; cbn; unfold update_timeout, after_reset; cbn;
     (destruct (Z.eqb_spec T 0); [lia|]); (destruct (Z.eqb_spec T (-1)); [subst; exact K|]);
@@ -1222,29 +1290,29 @@ Definition update_timeout_unfixed (s : pst) : option pst :=
   else
     let real := p_real s - (p_now s - p_base s) in
     if real <=? 0 then None
-    else Some (mkP (p_now s) real real (p_reset s) (p_user s) (p_ok s) (p_base s)).
+    else Some (mkP (p_now s) real real (p_reset s) (p_user s) (p_ok s) (p_base s) (p_count s) (p_full s)).
 
 Fixpoint io_poll_loop_unfixed (o : list pans) (s : pst) (log : list (Z * Z)) : pres :=
   match o with
   | [] =>
     let t := p_timeout s in
-    mkR ((t, p_now s) :: log) (p_now s + t) PeTimeout (p_ok s)      (* plain variant, t >= 0 *)
+    mkR ((t, p_now s) :: log) [] (p_now s + t) PeTimeout (p_ok s)      (* plain variant, t >= 0 *)
   | a :: r =>
     let t := p_timeout s in
     let log := (t, p_now s) :: log in
     match a with
-    | PEvents e => mkR log (p_now s + e) PeEvents (p_ok s && elapsed_ok t e)
-    | PTimeout => mkR log (p_now s + t) PeTimeout (p_ok s)
+    | PEvents e | PFull e => mkR log [] (p_now s + e) PeEvents (p_ok s && elapsed_ok t e)
+    | PTimeout => mkR log [] (p_now s + t) PeTimeout (p_ok s)
     | PIntr e =>
       let ok := p_ok s && elapsed_ok t e in
       match update_timeout_unfixed (after_reset s (p_now s + e) ok) with
-      | None => mkR log (p_now s + e) PeBreak ok
+      | None => mkR log [] (p_now s + e) PeBreak ok
       | Some s' => io_poll_loop_unfixed r s' log
       end
     end
   end.
 Definition io_poll_unfixed (timeout : Z) (o : list pans) : pres :=
-  io_poll_loop_unfixed o (mkP 0 timeout timeout false 0 true 0) [].
+  io_poll_loop_unfixed o (mkP 0 timeout timeout false 0 true 0 48 false) [].
 
 Lemma io_poll_unfixed_retry_exact_refuted :
   exists T o,
